@@ -112,11 +112,12 @@ let cmd_engine line =
       | ["REOPEN"] | ["RESTART"] -> OReopen, None
       | _ -> failwith ("bad engine line: " ^ line) in
     let drift = (o = OReopen) && id_drift !eng_env.v_cfg !eng_state in
+    let stale = (o = OReopen) && stale_tail_b !eng_state in
     let pre = match tid with Some t -> unmodelled !eng_state t | None -> false in
     let (s', r) = step !eng_env !eng_state o in
     eng_state := s';
     let post = match tid with Some t -> unmodelled s' t | None -> any_unmodelled s' in
-    (if pre || post then "?" else "") ^ show_result r ^ (if drift then "!drift" else "")
+    (if pre || post then "?" else "") ^ show_result r ^ (if drift then "!drift" else "") ^ (if stale then "!stale" else "")
 
 
 (* ---------- acceptors over implementation traces ----------
